@@ -38,6 +38,7 @@ UID = st.one_of(
     _HEX.map(lambda h: f"{h[:8]}-{h[8:12]}-{h[12:16]}-{h[16:20]}-{h[20:]}"),
     _HEX.map(lambda h: f"{h[:8]}-{h[8:12]}-{h[12:16]}-{h[16:20]}-{h[20:]}".upper()),
     _HEX,
+    st.sampled_from(["null", "NULL", "None", "none", "nil", "0", "false", "N", "NaN", "-", "_"]),
 )
 ENTITY_BITS = ["&#60;", "&#38;", "&#x3C;", "&#62;", "&amp;", "&lt;", "&#233;", "&#0;", "&nbsp;", "&", ";", "#"]
 
@@ -55,12 +56,18 @@ def body_st(charset, ascii_only=False):
         alpha = st.one_of(st.sampled_from(LATIN1_CHARS), st.characters(min_codepoint=0x20, max_codepoint=0x7E), st.sampled_from("\r\n\t"))
     else:
         alpha = st.one_of(st.characters(min_codepoint=0x20, max_codepoint=0x2FFF, exclude_categories=("Cs", "Cn")), st.sampled_from("\r\n\t€漢💩"))
-    inner = st.one_of(
+    inner = inner_small = st.one_of(
         st.sampled_from(["OFX><A>x</A></OFX", "OFX>\r\n<A>1\r\n</OFX", "A", "a>b<c", "OFX><A>AT&#38;T &#60;b&#62;</A></OFX"]),
         st.text(alpha, min_size=0, max_size=30),
         # entity and character-reference spellings are body text like any other: the header parser hands them over verbatim
         st.lists(st.one_of(st.sampled_from(ENTITY_BITS), st.text(alpha, min_size=0, max_size=4)), min_size=1, max_size=8).map("".join),
     )
+    if not ascii_only:
+        # now and then a body well beyond any read-buffer size (8 KiB, 16 KiB, 64 KiB), filled with multi-byte characters so
+        # that a character sits across every block boundary whatever the header length
+        ch = "\u00e9" if charset in ("1252", "ISO-8859-1") else "\u6f22\u00e9"
+        big = st.builds(lambda n, k: "A>" + (ch * n)[: n] + "x" * k + "</A", st.sampled_from([4200, 9000, 23000, 70000]), st.integers(0, 3))
+        inner = st.integers(0, 24).flatmap(lambda i: big if i == 0 else inner_small)
     return inner.map(lambda s: "<" + s + ">")
 
 
